@@ -2252,6 +2252,8 @@ def byte_segments(t):
     is_ = lambda name, *ps: any(_n.is_(name, p) for p in ps)
     while isinstance(t, tuple) and len(t) == 4 and t[0] == "call" and is_(t[1], "Iterator::collect", "IntoIterator::into_iter", "Iterator::copied", "Iterator::cloned", "slice::iter", "Vec::from", "slice::to_vec") and t[2]:
         t = t[2][0]
+    if t == ("default",) or t == ("const", b"") or (isinstance(t, tuple) and len(t) == 2 and t[0] == "array" and not t[1]):
+        return []  # an empty sequence
     # a borrowed view of the same bytes
     while isinstance(t, tuple) and len(t) == 4 and t[0] == "call" and t[2] and (is_(t[1], "Vec::as_slice", "array::as_slice", "slice::as_ref", "AsRef::as_ref", "Deref::deref", "Bytes::as_slice")
                                                                                  or (is_(t[1], "Index::index") and len(t[2]) == 2 and isinstance(t[2][1], tuple) and len(t[2][1]) == 4 and t[2][1][0] == "agg" and str(t[2][1][1]).endswith("RangeFull"))):
@@ -2330,6 +2332,33 @@ def byte_segments(t):
             flush()
             return out
     return [t]
+
+
+def expand_byte_calls(program, N, segs, depth=0):
+    """segments that are calls to workspace functions building a byte sequence themselves are replaced by that function's
+    own segments (its parameters substituted) — `x.encode()` written out where it is used, one level per call"""
+    from . import summary as _s
+    out = []
+    for s in segs:
+        if isinstance(s, tuple) and len(s) == 4 and s[0] == "when":
+            out.append(("when", s[1], s[2], expand_byte_calls(program, N, s[3], depth)))
+            continue
+        b = program.bodies.get(s[1]) if isinstance(s, tuple) and len(s) == 4 and s[0] == "call" and isinstance(s[1], str) else None
+        if b is None or depth > 3 or not b.return_blocks() or len(s[2]) != b.arg_count:
+            out.append(s)
+            continue
+        ret = N.norm(Terms(program, b).place(0, (), b.return_blocks()[0], "t"))
+        inner = byte_segments(ret)
+        if inner == [ret]:
+            out.append(s)
+            continue
+        sub = []
+        for x in inner:
+            for k, a in enumerate(s[2]):
+                x = _s.replace(x, ("param", k + 1), a)
+            sub.append(simplify_term(x))
+        out += expand_byte_calls(program, N, sub, depth + 1)
+    return out
 
 
 def strip_sites(t):
